@@ -297,6 +297,7 @@ pub fn exec_line(line: &str) -> String {
         "REG" => exec_reg(&fields[1..]),
         "ANG" => exec_ang(&fields[1..]),
         "TUP" => exec_tup(&fields[1..]),
+        "ELL" => exec_ell(&fields[1..]),
         "GRID" => exec_grid(&fields[1..]),
         "GRIDS" => exec_grids(&fields[1..]),
         "KP" => {
@@ -348,6 +349,57 @@ fn exec_ang(fields: &[&str]) -> String {
         _ => return "bad-case".to_string(),
     };
     fbits(r)
+}
+
+/// one public function of the ellipsoid module: `ELL <name or a,rf> <function> <args>`
+fn exec_ell(fields: &[&str]) -> String {
+    if fields.len() != 3 {
+        return "bad-case".to_string();
+    }
+    let Ok(e) = Ellipsoid::named(&unescape(fields[0])) else { return "err".to_string() };
+    let a: Vec<f64> = if fields[2] == "-" { vec![] } else { fields[2].split(',').map(parse_f).collect() };
+    let one = |x: f64| fbits(x);
+    let four = |c: Coor4D| (0..4).map(|i| fbits(c[i])).collect::<Vec<_>>().join(",");
+    match (fields[1], a.len()) {
+        ("semimajor_axis", 0) => one(e.semimajor_axis()),
+        ("flattening", 0) => one(e.flattening()),
+        ("semiminor_axis", 0) => one(e.semiminor_axis()),
+        ("second_flattening", 0) => one(e.second_flattening()),
+        ("third_flattening", 0) => one(e.third_flattening()),
+        ("aspect_ratio", 0) => one(e.aspect_ratio()),
+        ("linear_eccentricity", 0) => one(e.linear_eccentricity()),
+        ("eccentricity_squared", 0) => one(e.eccentricity_squared()),
+        ("eccentricity", 0) => one(e.eccentricity()),
+        ("second_eccentricity_squared", 0) => one(e.second_eccentricity_squared()),
+        ("second_eccentricity", 0) => one(e.second_eccentricity()),
+        ("polar_radius_of_curvature", 0) => one(e.polar_radius_of_curvature()),
+        ("normalized_meridian_arc_unit", 0) => one(e.normalized_meridian_arc_unit()),
+        ("rectifying_radius", 0) => one(e.rectifying_radius()),
+        ("rectifying_radius_bowring", 0) => one(e.rectifying_radius_bowring()),
+        ("meridian_quadrant", 0) => one(e.meridian_quadrant()),
+        ("prime_vertical_radius_of_curvature", 1) => one(e.prime_vertical_radius_of_curvature(a[0])),
+        ("meridian_radius_of_curvature", 1) => one(e.meridian_radius_of_curvature(a[0])),
+        ("meridian_latitude_to_distance", 1) => one(e.meridian_latitude_to_distance(a[0])),
+        ("meridian_distance_to_latitude", 1) => one(e.meridian_distance_to_latitude(a[0])),
+        ("latitude_geographic_to_geocentric", 1) => one(e.latitude_geographic_to_geocentric(a[0])),
+        ("latitude_geocentric_to_geographic", 1) => one(e.latitude_geocentric_to_geographic(a[0])),
+        ("latitude_geographic_to_reduced", 1) => one(e.latitude_geographic_to_reduced(a[0])),
+        ("latitude_reduced_to_geographic", 1) => one(e.latitude_reduced_to_geographic(a[0])),
+        ("latitude_geographic_to_isometric", 1) => one(e.latitude_geographic_to_isometric(a[0])),
+        ("latitude_isometric_to_geographic", 1) => one(e.latitude_isometric_to_geographic(a[0])),
+        ("latitude_geographic_to_rectifying", 1) => one(e.latitude_geographic_to_rectifying(a[0], &e.coefficients_for_rectifying_latitude_computations())),
+        ("latitude_rectifying_to_geographic", 1) => one(e.latitude_rectifying_to_geographic(a[0], &e.coefficients_for_rectifying_latitude_computations())),
+        ("latitude_geographic_to_conformal", 1) => one(e.latitude_geographic_to_conformal(a[0], &e.coefficients_for_conformal_latitude_computations())),
+        ("latitude_conformal_to_geographic", 1) => one(e.latitude_conformal_to_geographic(a[0], &e.coefficients_for_conformal_latitude_computations())),
+        ("latitude_geographic_to_authalic", 1) => one(e.latitude_geographic_to_authalic(a[0], &e.coefficients_for_authalic_latitude_computations())),
+        ("latitude_authalic_to_geographic", 1) => one(e.latitude_authalic_to_geographic(a[0], &e.coefficients_for_authalic_latitude_computations())),
+        ("cartesian", 4) => four(e.cartesian(&Coor4D([a[0], a[1], a[2], a[3]]))),
+        ("geographic", 4) => four(e.geographic(&Coor4D([a[0], a[1], a[2], a[3]]))),
+        ("geodesic_fwd", 4) => four(e.geodesic_fwd(&Coor4D([a[0], a[1], 0., 0.]), a[2], a[3])),
+        ("geodesic_inv", 4) => four(e.geodesic_inv(&Coor4D([a[0], a[1], 0., 0.]), &Coor4D([a[2], a[3], 0., 0.]))),
+        ("distance", 4) => one(e.distance(&Coor4D([a[0], a[1], 0., 0.]), &Coor4D([a[2], a[3], 0., 0.]))),
+        _ => "bad-case".to_string(),
+    }
 }
 
 /// one method of the `CoordinateTuple` trait on a tuple of 2, 3 or 4 elements:
